@@ -7,8 +7,8 @@
     * `Impl`  — statement-by-statement port of the adapter at the interface level, *including what
                 looks wrong* (DESIGN §4): object cache in first-insertion order, origin / dirty storage
                 per object, suicided / deleted flags, the journal with the `revert` of every entry,
-                the `dirties` slice with its `addressToJournalIndex` map (which `deleteDirty` does
-                not re-index), `validRevisions`, refund, logs, access list, `Finalise`, `Reset`.
+                the `dirties` slice with its `addressToJournalIndex` map, `validRevisions`,
+                refund, logs, access list, `Finalise`, `Reset`.
     * `Ref`   — the textbook semantics: a world of accounts, a stack of saved worlds
                 (snapshot = push a copy, revert = pop to it), `Finalise` = delete self-destructed
                 and touched-empty accounts and promote current storage to committed storage.
@@ -56,12 +56,16 @@ structure Obj where
   dirty : List (Key × Val)       -- dirtyStorage + keyToDirtyStorageIndex
   suicided : Bool
   deleted : Bool
+  created : Bool                 -- made by `createObject` (8684164): no committed storage
   deriving Repr, DecidableEq
 
 /-- `newStateObject` over `NewEthAccount(addr, coin)` -/
 def Obj.fresh (a : Addr) (bal : Nat) : Obj :=
   { addr := a, nonce := 0, bal := bal, codeHash := 0, code := 0, dirtyCode := false,
-    origin := [], dirty := [], suicided := false, deleted := false }
+    origin := [], dirty := [], suicided := false, deleted := false, created := false }
+
+/-- the object `createObject` makes: `newStateObject` with `created` set -/
+def Obj.make (a : Addr) (bal : Nat) : Obj := { Obj.fresh a bal with created := true }
 
 /-- `stateObject.empty` -/
 def Obj.empty (o : Obj) : Bool := o.nonce == 0 && o.bal == 0 && o.codeHash == 0
@@ -94,6 +98,11 @@ def Store.setSlot (st : Store) (a : Addr) (k : Key) (v : Val) : Store :=
 def Store.delSlot (st : Store) (a : Addr) (k : Key) : Store :=
   { st with stor := aerase st.stor (a, k) }
 
+/-- `ContractStore.DeleteStorage(a)` (8684164): every storage record of the address, committed or
+    pending, is deleted -/
+def Store.delStorage (st : Store) (a : Addr) : Store :=
+  { st with stor := st.stor.filter fun x => x.1.1 != a }
+
 /-- `contractStore.Set(KeyPrefixCode, h, code)` when the store accepts the value.  `State.Set`
     refuses a value equal to the TOMBSTONE marker (b55dd24, `ErrReservedValue`); `commitCode`
     returns that error and `Finalise` stops with it (078c4d3, see `Impl.finalise`). -/
@@ -106,7 +115,8 @@ def Store.setAccount (st : Store) (o : Obj) : Store :=
 
 /-- `NesterAccountKeeper.RemoveAccount` (da864f3, c90a103): deletes `keeper_<a>` and, when the
     balance record is not zero, writes a zero amount: a removed account is gone with whatever it
-    holds.  Storage and code records stay (S8, KF-C16-2). -/
+    holds.  (The storage records go in `deleteStateObject`, see `finaliseObj`; code records stay:
+    they are content-addressed.) -/
 def Store.removeAccount (st : Store) (a : Addr) : Store :=
   { st with acct := aerase st.acct a, bal := if st.balOf a = 0 then st.bal else upsert st.bal a 0 }
 
@@ -119,11 +129,16 @@ def Store.getAccount (st : Store) (a : Addr) : Option Obj :=
 
 /-! ### storage and code of one object -/
 
-/-- `stateObject.GetCommittedState`: the cached original value, else the record (then cached) -/
+/-- the committed value of a slot below the object's caches: the record, but nothing for a
+    `created` object (8684164; go-ethereum: a new object has an empty trie) -/
+def Obj.base (st : Store) (o : Obj) (k : Key) : Val := if o.created then 0 else st.slot o.addr k
+
+/-- `stateObject.GetCommittedState`: the cached original value, else the record (then cached);
+    a `created` object does not fall through to the records -/
 def Obj.getCommitted (st : Store) (o : Obj) (k : Key) : Obj × Val :=
   match alookup k o.origin with
   | some v => (o, v)
-  | none => let v := st.slot o.addr k; ({ o with origin := o.origin ++ [(k, v)] }, v)
+  | none => let v := o.base st k; ({ o with origin := o.origin ++ [(k, v)] }, v)
 
 /-- `stateObject.GetState` -/
 def Obj.getState (st : Store) (o : Obj) (k : Key) : Obj × Val :=
@@ -279,10 +294,10 @@ def Impl.jappend (s : Impl) (e : Entry) : Option Impl :=
   some { s with journal := s.journal.append e }
 
 /-- `createObject`: the new account starts from the *balance record* of the address
-    (`NewAccountWithAddress`) -/
+    (`NewAccountWithAddress`) and is flagged `created` -/
 def Impl.createObject (s : Impl) (a : Addr) : Option (Impl × Obj × Option Obj) :=
   let (s1, prev) := s.getObj a
-  let newObj := Obj.fresh a (s1.store.balOf a)
+  let newObj := Obj.make a (s1.store.balOf a)
   let e := match prev with
     | none => Entry.createObject a
     | some p => Entry.resetObject p
@@ -459,13 +474,18 @@ def Impl.snapshot (s : Impl) : Impl × Nat :=
 
 /-! ### Finalise, Reset, Prepare -/
 
+/-- the records `commitState` of this object starts from: a `created` object is written out over
+    nothing, what the store holds under its address belonged to the replaced account (8684164) -/
+def Obj.baseStore (st : Store) (o : Obj) : Store := if o.created then st.delStorage o.addr else st
+
 /-- the body of the `for _, stateEntry := range s.stateObjects` loop of `Finalise` -/
 def finaliseObj (c : Cfg) (deleteEmpty : Bool) (dirtySet : List Addr) (st : Store) (ao : Addr × Obj) : Store :=
   let o := ao.2
   let isDirty := decide (ao.1 ∈ dirtySet)
-  if o.suicided || (isDirty && deleteEmpty && o.empty) then st.removeAccount o.addr     -- deleteStateObject
+  if o.suicided || (isDirty && deleteEmpty && o.empty) then
+    (st.removeAccount o.addr).delStorage o.addr                                        -- deleteStateObject
   else if isDirty then
-    let st1 := o.commitState st
+    let st1 := o.commitState (o.baseStore st)
     let st2 := if o.code ≠ 0 && o.dirtyCode then st1.setCode c o.codeHash o.code else st1
     st2.setAccount o                                                                   -- updateStateObject
   else st
@@ -487,7 +507,7 @@ def Impl.finalise (c : Cfg) (s : Impl) (deleteEmpty : Bool) : Impl × Bool :=
   match s.objs.find? (commitFails c deleteEmpty dirtySet) with
   | none => ({ s with store := st, objs := [], journal := Journal.new, refund := 0, revisions := [] }, false)
   | some ao =>
-    ({ s with store := ao.2.commitState st, objs := [], journal := Journal.new, refund := 0, revisions := [] }, true)
+    ({ s with store := ao.2.commitState (ao.2.baseStore st), objs := [], journal := Journal.new, refund := 0, revisions := [] }, true)
 
 /-- `Reset` -/
 def Impl.reset (s : Impl) : Impl := Impl.init s.store
@@ -601,39 +621,39 @@ def Impl.run (c : Cfg) (s : Impl) : List Op → List Out
     if (s.step c op).2 = .panic then [.panic] else (s.step c op).2 :: Impl.run c (s.step c op).1 ops
 
 
+/-- the adapter state after a call sequence (a panic ends it) -/
+def Impl.endState (c : Cfg) : Impl → List Op → Impl
+  | s, [] => s
+  | s, op :: ops => if (s.step c op).2 = .panic then s else Impl.endState c (s.step c op).1 ops
+
 /-! ### guards: the conditions under which the adapter is claimed to agree with the reference
 
   Each condition is a decidable predicate on the adapter's own state; the driver evaluates them on
   every line of every correspondence run:
-    S8 storage    `Finalise` deletes an account whose storage records are not empty, or
-                  `CreateAccount` runs over a live account that has storage records (KF-C16-2, the
-                  one mechanism left on which adapter and reference answer differently);
-    marker code   a contract code equal to the store's deletion marker (3 bytes e2 9b bc) is written
-                  out: the store refuses it and `Finalise` fails the transaction, which the
-                  reference semantics has no counterpart for (a documented exclusion, not a silent
-                  divergence);
-    empties       `Finalise(false)` (empty accounts would stay in the records);
-  plus two modelling restrictions: the RIPEMD touch exception is left to the correspondence run,
-  `Prepare` / `Reset` are taken at transaction boundaries (empty journal).
-  Nothing else: that no journal operation fails, that `Finalise` sees every account with a live
-  journal entry as dirty, and that every dirty slot has its original value cached when
+    marker code   `Finalise` returns the store's error: an object is written out whose code is the
+                  store's deletion marker (3 bytes e2 9b bc); the store refuses the record and the
+                  transaction fails, which the reference semantics has no counterpart for (a
+                  documented exclusion, not a silent divergence; reachable by a deployment that
+                  returns exactly those three bytes);
+    empties       `Finalise(false)` (empty accounts would stay in the records; the transaction path
+                  calls `Finalise(true)` only, vm/evm.go `Apply`);
+    boundaries    `Prepare` / `Reset` with a non-empty journal (the transaction path calls `Prepare`
+                  at the top of DeliverTx and `Reset` in EndBlock, each after the `Finalise` of the
+                  last transaction, whose deferred function empties the journal).
+  Nothing else.  In particular nothing about storage records (8684164: they go with the account,
+  and a `created` object does not read those of its predecessor), nothing about the RIPEMD touch
+  exception (its extra dirty count and the reference's sticky touch decide nothing: the records
+  hold no empty account), and: that no journal operation fails, that `Finalise` sees every account
+  with a live journal entry as dirty, and that every dirty slot has its original value cached when
   `commitState` runs (it skips the others) are proved invariants (Lemmas.lean `JOK`, `JCnt`, `OOK`). -/
 
-/-- all storage records of the address are zero -/
-def Store.storClean (st : Store) (a : Addr) : Bool := st.stor.all fun x => x.1.1 != a || x.2 == 0
-
-/-- decidable sanity of the records (`StoreOK` in Lemmas.lean): no empty account, no storage record
-    of an absent account, the code of every account present -/
+/-- decidable sanity of the records (`StoreOK` in Lemmas.lean): no empty account, the code of every
+    account present.  Kept by every call inside the guards (`Sim.cinv`), true of the empty records.
+    Storage records under an address that has no account (left by deletions before 8684164) are
+    allowed: a `created` object does not read them and they are deleted when it is written out. -/
 def Store.sane (st : Store) : Bool :=
   (st.acct.all fun x => !(x.2.1 == 0 && x.2.2 == 0 && st.balOf x.1 == 0)) &&
-  (st.stor.all fun x => x.2 == 0 || (st.getAccount x.1.1).isSome) &&
   (st.acct.all fun x => x.2.2 == 0 || st.codeAt x.2.2 == x.2.2)
-
-/-- `getStateObject(a) != nil`, without caching -/
-def Impl.liveAt (s : Impl) (a : Addr) : Bool :=
-  match alookup a s.objs with
-  | some o => !o.deleted
-  | none => (s.store.getAccount a).isSome
 
 /-- `GetBalance(a)`, without caching -/
 def Impl.balAt (s : Impl) (a : Addr) : Nat :=
@@ -650,15 +670,12 @@ def Impl.dirtySet (s : Impl) : List Addr :=
 /-- every dirty slot has its original value cached (`commitState` skips the others); an invariant, see `OOK` -/
 def Obj.dirtyHasOrigin (o : Obj) : Bool := o.dirty.all fun kv => (alookup kv.1 o.origin).isSome
 
-/-- what `Finalise(true)` must not meet -/
+/-- `Finalise(true)` does not return the store's error: no object that is written out has the
+    deletion marker as its new code -/
 def Impl.finaliseGuard (c : Cfg) (s : Impl) : Bool :=
-  s.objs.all fun ao =>
-    !(ao.2.code != 0 && ao.2.dirtyCode && ao.2.code == c.tomb) &&
-    (!(ao.2.suicided || (decide (ao.1 ∈ s.dirtySet) && ao.2.empty)) || s.store.storClean ao.1)
+  s.objs.all fun ao => !commitFails c true s.dirtySet ao
 
 def Impl.guard (c : Cfg) (s : Impl) : Op → Bool
-  | .createAccount a => !s.liveAt a || s.store.storClean a
-  | .addBalance a n => !(n == 0 && a == c.ripemd)
   | .prepare _ => s.journal.entries.isEmpty && s.revisions.isEmpty
   | .reset => s.journal.entries.isEmpty
   | .finalise b => b && s.finaliseGuard c
